@@ -16,7 +16,7 @@
    residence times (any N, not only u128) and clock values >= 2000-01-01 are arbitrary. *)
 From Coq Require Import Sorting.Sorted.
 From BP7 Require Import Base.Prelude Gen.Consts Model.Types Model.Encode Model.Decode Model.Wf Model.WfExt Model.Validate Model.Ops
-  Model.OpSeq Model.Api Spec.Rules Proofs.CodecUnknownCrc Proofs.InvariantProofs Proofs.ApiProofs Proofs.TableProofs.
+  Model.OpSeq Model.Api Spec.Rules Proofs.CodecUnknownCrc Proofs.InvariantProofs Proofs.ApiProofs Proofs.TieBase Proofs.TieCrcCode.
 
 Theorem C11_invariant : forall m b0 ops, start_ok b0 -> Forall (op_admissible b0) ops ->
   exists b, fold_res (step m) ops b0 = Ok b
